@@ -3,6 +3,7 @@ package checks
 import (
 	"fmt"
 	"math/big"
+	"strings"
 
 	"filippo.io/edwards25519"
 	"filippo.io/edwards25519/field"
@@ -331,7 +332,14 @@ type manyCase struct {
 	RecvAt  int    `json:"recv_at"` // -1: fresh receiver; i: the receiver is the point of term i
 }
 
-var subC01Many = core.NewSub("C01/many-terms", func(w *core.Worker, c manyCase) *core.Fail {
+var subC01Many = core.NewSub("C01/many-terms", manyTerms)
+
+// C12 runs the same calls over size classes and scalar shapes of its own (results of multi-scalar
+// calls of every size class must be valid points; pointMatches includes Z != 0, the curve equation
+// and XY = ZT).
+var subC12Many = core.NewSub("C12/many-terms", manyTerms)
+
+func manyTerms(w *core.Worker, c manyCase) *core.Fail {
 	B := ref.Base()
 	T := ref.Torsion()
 	var sc []*edwards25519.Scalar
@@ -345,6 +353,14 @@ var subC01Many = core.NewSub("C01/many-terms", func(w *core.Worker, c manyCase) 
 			kv = big.NewInt(1)
 		case "l-1":
 			kv = new(big.Int).Sub(ref.L, big.NewInt(1))
+		case "small": // all below 2^64: every scalar has zero bytes at the same (high) positions
+			kv = big.NewInt(int64(i*i*7919 + 3))
+		case "sparse": // generic, with bytes 7 and 20 cleared in every scalar
+			b := ref.LE32(ref.SRed(new(big.Int).Add(alpha.GenericScalar, big.NewInt(int64(i*i)))))
+			b[7], b[20] = 0, 0
+			kv = ref.FromLE(b[:])
+		case "zero":
+			kv = big.NewInt(0)
 		case "alternating":
 			kv = []*big.Int{big.NewInt(1), new(big.Int).Sub(ref.L, big.NewInt(1)), big.NewInt(0), big.NewInt(8)}[i%4]
 		default:
@@ -354,17 +370,27 @@ var subC01Many = core.NewSub("C01/many-terms", func(w *core.Worker, c manyCase) 
 		switch c.Points {
 		case "B", "same-pointer":
 			pm = B
+		case "same-pointer-mixed": // one pointer in every slot, a point of order 8l: scalars folded mod l show
+			pm = ref.Add(T[1], B)
+		case "two-pointers-mixed": // two pointers alternating, orders 8l and 4l
+			pm = []ref.Pt{ref.Add(T[1], B), ref.Add(T[2], ref.Mul(big.NewInt(3), B))}[i%2]
 		case "distinct":
 			pm = ref.Mul(big.NewInt(int64(i+2)), B)
 		default:
 			pm = ref.Add(T[i%8], ref.Mul(big.NewInt(int64(i%5+1)), B))
 		}
 		sc = append(sc, mkScalar(kv))
-		if c.Points == "same-pointer" {
+		if c.Points == "same-pointer" || c.Points == "same-pointer-mixed" {
 			if same == nil {
 				same = alpha.MakePoint(pm, 6)
 			}
 			ps = append(ps, same)
+		} else if c.Points == "two-pointers-mixed" {
+			if i < 2 {
+				ps = append(ps, alpha.MakePoint(pm, 6-3*i))
+			} else {
+				ps = append(ps, ps[i%2])
+			}
 		} else {
 			ps = append(ps, alpha.MakePoint(pm, []int{0, 6, 3}[i%3]))
 		}
@@ -389,7 +415,7 @@ var subC01Many = core.NewSub("C01/many-terms", func(w *core.Worker, c manyCase) 
 		return core.Failf("%s with %d terms (scalars %s, points %s, receiver at term %d): %s", c.Routine, c.N, c.Scalars, c.Points, c.RecvAt, f.Msg)
 	}
 	return nil
-})
+}
 
 func init() { register("C01", "model_checking", runC01) }
 
@@ -498,19 +524,19 @@ func runC01(ctx *core.Ctx) {
 	}
 	subC01Mult.RunList(ctx, cases)
 	var mc []manyCase
-	ns := []int{4, 7, 8, 9, 15, 16, 17, 31, 32, 33, 63, 64, 65, 127, 128, 129, 255, 256, 257}
+	ns := []int{4, 5, 6, 7, 8, 9, 10, 12, 15, 16, 17, 20, 24, 31, 32, 33, 48, 63, 64, 65, 100, 127, 128, 129, 190, 200, 255, 256, 257}
 	if !ctx.Quick() {
 		ns = append(ns, 511, 512, 513, 1024)
 	}
 	for _, r := range []string{"MultiScalarMult", "VarTimeMultiScalarMult"} {
 		for _, n := range ns {
 			for si, sp := range []string{"one", "l-1", "alternating", "generic"} {
-				for pi, pp := range []string{"B", "distinct", "mixed", "same-pointer"} {
+				for pi, pp := range []string{"B", "distinct", "mixed", "same-pointer", "same-pointer-mixed", "two-pointers-mixed"} {
 					if n > 64 && (si+pi)%2 == 1 && ctx.Quick() {
 						continue
 					}
 					mc = append(mc, manyCase{r, n, sp, pp, -1})
-					if pp != "same-pointer" {
+					if !strings.Contains(pp, "pointer") {
 						mc = append(mc, manyCase{r, n, sp, pp, n - 1}, manyCase{r, n, sp, pp, n / 2})
 						if n > 8 {
 							mc = append(mc, manyCase{r, n, sp, pp, 8})
